@@ -97,4 +97,10 @@ package and utils/evolutions.py) never asks for the current version without nami
 the translator on every run) -/
 theorem C16_source_current_version_names_database : DEvo.Generated.currentVersionWithoutAlias = [] := by decide
 
+/-- while a database is being evolved, a model's mutation belongs to THAT database: the routers' write
+preference is asked only when no database is named (read by the translator on every run) -/
+theorem C16_source_is_mutable_database : DEvo.Generated.isMutableDatabase =
+    ["db_name = database or get_database_for_model_name(app_label, self.model_name)",
+     "return db_name and db_name == database"] := by decide
+
 end DEvo.Props.C16
